@@ -205,6 +205,11 @@ fn parse_squares(game: &Game, mv: &str) -> Result<(Square, Square), ParseError> 
 }
 
 pub fn parse_move(game: &Game, mv: &str) -> Result<Move, ParseError> {
+    // Castling may carry a check or mate suffix like any other move
+    let mv = mv
+        .trim_end_matches(san::CHECK)
+        .trim_end_matches(san::CHECKMATE);
+
     if mv == san::KINGSIDE_CASTLE {
         return Ok(game.moves().expect_matching(
             squares::king_start(game.player),
@@ -220,10 +225,6 @@ pub fn parse_move(game: &Game, mv: &str) -> Result<Move, ParseError> {
             None,
         ));
     }
-
-    let mv = mv
-        .trim_end_matches(san::CHECK)
-        .trim_end_matches(san::CHECKMATE);
 
     let (mv, promotion) = if mv.contains(san::PROMOTION) {
         let (rest, promotion_piece) = mv
